@@ -44,6 +44,7 @@ pub mod c33;
 pub mod c34;
 pub mod c35;
 pub mod c36;
+pub mod corpus;
 pub mod objgen;
 pub mod recdev;
 pub mod simrig;
